@@ -11,7 +11,7 @@ Open Scope Q_scope.
 
 Ltac py_open := intros; repeat autounfold with pygen in *.
 Ltac py_tie :=
-  solve [ py_open; unfold Phragmen.tb_lexico, Phragmen.tb_app_score, Phragmen.tb_min_cost, Phragmen.tb_max_cost,
+  timeout 20 solve [ py_open; unfold Phragmen.tb_lexico, Phragmen.tb_app_score, Phragmen.tb_min_cost, Phragmen.tb_max_cost,
             tb_order_of_key, tb_untie_of_key, untie, tie_order in *;
           py_unfold; first [ reflexivity | py_cases ] ].
 
@@ -61,14 +61,14 @@ Lemma gen_untie_ok : forall (f : inst -> list aballot -> proj -> Q) I P l,
   gen_TieBreakingRule_untie f I P l = tb_untie_of_key (f I P) l.
 Proof.
   first [ py_tie
-        | intros; py_open; unfold tb_untie_of_key, untie, tie_order; py_unfold; destruct (isort _ l); reflexivity ].
+        | timeout 60 (intros; py_open; unfold tb_untie_of_key, untie, tie_order; py_unfold; destruct (isort _ l); reflexivity) ].
 Qed.
 
 Lemma gen_untie_key_ok : forall (f : inst -> list aballot -> proj -> Q) I P l k,
   gen_TieBreakingRule_untie_key f I P l k = hd_error (tb_order_of_key (fun x => f I P (k x)) l).
 Proof.
   first [ py_tie
-        | intros; py_open; unfold tb_order_of_key, tie_order; py_unfold; destruct (isort _ l); reflexivity ].
+        | timeout 60 (intros; py_open; unfold tb_order_of_key, tie_order; py_unfold; destruct (isort _ l); reflexivity) ].
 Qed.
 
 (* first of the order = untie *)
